@@ -198,7 +198,7 @@ class C04(Prop):
 
 class C12(Prop):
     cmd = "c12"
-    cases = {"quick": 600, "thorough": 120000}
+    cases = {"quick": 2000, "thorough": 120000}
     rule = ("histories of 4-30 operations over up to 4 workbook objects (set / overwrite / delete text and rich text, remove rows, columns, "
             "sheets, clone, reload-and-continue, save with either writer); every string carries a unique id; non-trivial = at least one save; "
             "distinct by hash of the history")
